@@ -213,6 +213,13 @@ def run(task):
             r.states += 1
             for ctx in ("%s", "C%s", "%s=C", "C(%s)C", "C1%sC1", "CC.%s", "%s.%s"):
                 smi = ctx % ((sp,) * ctx.count("%s"))
+                # history first: the decoder meets this spelling's symbol for the first time under the *tight* table
+                # (where it may be rejected), and only then the round trip under the relaxed table is checked
+                use(TIGHT)
+                try:
+                    _SF.decoder(_SF.encoder(smi, strict=False))
+                except Exception:
+                    pass
                 x = check(smi, RELAXED, r)
                 if x is not None and ctx == "C%s":
                     sym = misc.tokenize(x)[1]
@@ -220,6 +227,14 @@ def run(task):
                 # the same spellings under tight tables: lone or bonded atoms whose explicit H alone reach the capacity
                 for tight in ("default", "octet_rule", TIGHT):
                     check(smi, tight, r)
+                    if x is not None:
+                        # history: the string accepted under the relaxed table is also handed to the decoder under the
+                        # tighter table (it may legitimately be rejected there); what matters is that this leaves no
+                        # trace for the round trips that follow under other tables
+                        try:
+                            _SF.decoder(x)
+                        except Exception:
+                            pass
                 last = (smi, x)
         for mean, d in classes.items():
             r.evaluations += 1
